@@ -614,7 +614,12 @@ Definition apply_idx (f : idxfun) (x : term) : er term :=
   | FSext k => chk (mk_bvsext x k)
   | FRol k => chk (mk_bvrol x k)
   | FRor k => chk (mk_bvror x k)
-  | FRepeat k => if (k <? 1)%Z then Er EValue else repeat_fold (Z.to_nat (k - 1)) x x
+  | FRepeat k =>                  (* BVRepeat: PysmtValueError for count < 1, PysmtTypeError unless x is a bit-vector *)
+      if (k <? 1)%Z then Er EValue
+      else match tc x with
+           | Some (TBV _) => repeat_fold (Z.to_nat (k - 1)) x x
+           | _ => Er EType
+           end
   end.
 
 (* ================================================================ calling an item: the call of fun on lst *)
